@@ -1,7 +1,7 @@
-(** C04 — the request body built by Sprintf, read back by the strict JSON
-    lexer: exact for clean strings. *)
+(** C04 — the request body built by json.Marshal, read back by the strict
+    JSON lexer: exact for every string that is valid UTF-8. *)
 From Coq Require Import String Ascii List Bool Arith NArith Lia.
-From Raven Require Import Base.GoStr Spec.Json Model.Auth Spec.AuthSpec.
+From Raven Require Import Base.GoStr Base.GoStrFacts Base.GoStrJson Spec.Json Model.Auth Spec.AuthSpec.
 Import ListNotations.
 Local Open Scope char_scope.
 
@@ -11,54 +11,200 @@ Proof.
   unfold json_plain. rewrite !andb_true_iff, !negb_true_iff. tauto.
 Qed.
 
+Lemma prepend_app a b r : prepend a (prepend b r) = prepend (a ++ b) r.
+Proof. destruct r as [[v rest]|]; simpl; [now rewrite app_assoc|reflexivity]. Qed.
+
+(** octets that need no escape are lexed as themselves *)
+Lemma lex_plain a X : forallb json_plain a = true -> lex_str (a ++ X) = prepend a (lex_str X).
+Proof.
+  induction a as [|c a IH]; intros H.
+  - simpl. destruct (lex_str X) as [[v r]|]; reflexivity.
+  - simpl in H. apply andb_true_iff in H as [Hc Ha].
+    apply json_plain_inv in Hc as (H1 & H2 & H3).
+    change ((c :: a) ++ X) with (c :: (a ++ X)). cbn [lex_str]. rewrite H1, H2, H3, (IH Ha).
+    now rewrite prepend_app.
+Qed.
+
 Lemma lex_clean v r : json_clean v = true -> lex_str (v ++ QUOTE :: r) = Some (v, r).
 Proof.
-  induction v as [|c v IH]; intros H.
-  - reflexivity.
-  - simpl in H. apply andb_true_iff in H as [Hc Hv].
-    apply json_plain_inv in Hc as (H1 & H2 & H3).
-    change ((c :: v) ++ QUOTE :: r) with (c :: (v ++ QUOTE :: r)).
-    cbn [lex_str]. rewrite H1, H2, H3, (IH Hv). reflexivity.
+  intros H. rewrite (lex_plain _ _ H). cbn [lex_str]. rewrite Ascii.eqb_refl. simpl. now rewrite app_nil_r.
 Qed.
 
-Lemma members_last f k v :
-  json_clean k = true -> json_clean v = true ->
-  members (S f) (QUOTE :: k ++ QUOTE :: ":" :: QUOTE :: v ++ QUOTE :: ["}"]) = Some [(k, v)].
+(** every ASCII octet, escaped as encoding/json does, is lexed back to itself *)
+Lemma esc_char c X : (byte_of c <? 128)%N = true ->
+  lex_str (json_esc_ascii c ++ X) = prepend [c] (lex_str X).
 Proof.
-  intros Hk Hv. cbn [members]. rewrite Ascii.eqb_refl, (lex_clean _ _ Hk).
-  cbn -[lex_str]. rewrite (lex_clean _ _ Hv). reflexivity.
+  destruct c as [[] [] [] [] [] [] [] []]; intros H;
+    try (vm_compute in H; discriminate H);
+    (match goal with |- lex_str (?e ++ X) = _ => let v := eval vm_compute in e in change e with v end);
+    simpl; reflexivity.
 Qed.
 
-Lemma members_more f k v rest :
-  json_clean k = true -> json_clean v = true ->
-  members (S f) (QUOTE :: k ++ QUOTE :: ":" :: QUOTE :: v ++ QUOTE :: "," :: QUOTE :: rest) =
+Lemma high_plain c : (128 <=? byte_of c)%N = true -> json_plain c = true.
+Proof.
+  intros H. assert (K : implb (128 <=? byte_of c)%N (json_plain c) = true).
+  { revert c H. intros c _. revert c. ascii_sweep (fun c => implb (128 <=? byte_of c)%N (json_plain c)). }
+  rewrite H in K. exact K.
+Qed.
+
+Lemma in_range_high lo hi c : (128 <= lo)%N -> in_range lo hi c = true -> (128 <=? byte_of c)%N = true.
+Proof.
+  unfold in_range. rewrite andb_true_iff, !N.leb_le. intros L [A _]. lia.
+Qed.
+
+Ltac high := match goal with
+  | H : in_range ?lo ?hi ?c = true |- (128 <=? byte_of ?c)%N = true => refine (in_range_high lo hi c _ H); lia
+  | H : cont_b ?c = true |- (128 <=? byte_of ?c)%N = true => refine (in_range_high 128 191 c _ H); lia
+  end.
+
+(** a rune accepted by utf8.DecodeRuneInString consists of 2..4 octets >= 0x80 *)
+Lemma rune_width_high s w : rune_width s = Some w ->
+  forallb (fun c => (128 <=? byte_of c)%N) (firstn w s) = true /\ 2 <= w /\ w <= length s.
+Proof.
+  unfold rune_width. destruct s as [|b0 [|b1 rest]]; try discriminate.
+  destruct (in_range 194 223 b0) eqn:R0.
+  - destruct (cont_b b1) eqn:C1; [|discriminate]. intros H; injection H as <-.
+    cbn [firstn forallb length]. split; [|lia]. rewrite !andb_true_iff. repeat split; try reflexivity; high.
+  - assert (S2 : forall ok, ok = true ->
+              (in_range 224 224 b0 = true \/ in_range 237 237 b0 = true \/ in_range 225 239 b0 = true
+               \/ in_range 240 240 b0 = true \/ in_range 244 244 b0 = true \/ in_range 241 243 b0 = true) ->
+              (128 <=? byte_of b1)%N = true ->
+              match rest with
+              | b2 :: rest' =>
+                  if negb (cont_b b2) then None
+                  else if in_range 224 239 b0 then Some 3
+                  else match rest' with b3 :: _ => if cont_b b3 then Some 4 else None | [] => None end
+              | [] => None
+              end = Some w ->
+              forallb (fun c => (128 <=? byte_of c)%N) (firstn w (b0 :: b1 :: rest)) = true /\ 2 <= w /\ w <= length (b0 :: b1 :: rest)).
+    { intros ok _ H0 H1 H.
+      assert (B0 : (128 <=? byte_of b0)%N = true) by (destruct H0 as [H0|[H0|[H0|[H0|[H0|H0]]]]]; high).
+      destruct rest as [|b2 rest']; [discriminate|].
+      destruct (cont_b b2) eqn:C2; [|discriminate]. cbn [negb] in H.
+      assert (B2 : (128 <=? byte_of b2)%N = true) by high.
+      destruct (in_range 224 239 b0).
+      - injection H as <-. cbn [firstn forallb length]. rewrite B0, H1, B2. split; [reflexivity|lia].
+      - destruct rest' as [|b3 rest'']; [discriminate|]. destruct (cont_b b3) eqn:C3; [|discriminate].
+        injection H as <-. cbn [firstn forallb length]. rewrite B0, H1, B2.
+        assert (B3 : (128 <=? byte_of b3)%N = true) by high. rewrite B3. split; [reflexivity|lia]. }
+    destruct (in_range 224 224 b0) eqn:A1.
+    { destruct (in_range 160 191 b1) eqn:Q; [|discriminate]. cbn [negb]. apply (S2 true eq_refl); [tauto|high]. }
+    destruct (in_range 237 237 b0) eqn:A2.
+    { destruct (in_range 128 159 b1) eqn:Q; [|discriminate]. cbn [negb]. apply (S2 true eq_refl); [tauto|high]. }
+    destruct (in_range 225 239 b0) eqn:A3.
+    { destruct (cont_b b1) eqn:Q; [|discriminate]. cbn [negb]. apply (S2 true eq_refl); [tauto|high]. }
+    destruct (in_range 240 240 b0) eqn:A4.
+    { destruct (in_range 144 191 b1) eqn:Q; [|discriminate]. cbn [negb]. apply (S2 true eq_refl); [tauto|high]. }
+    destruct (in_range 244 244 b0) eqn:A5.
+    { destruct (in_range 128 143 b1) eqn:Q; [|discriminate]. cbn [negb]. apply (S2 true eq_refl); [tauto|high]. }
+    destruct (in_range 241 243 b0) eqn:A6.
+    { destruct (cont_b b1) eqn:Q; [|discriminate]. cbn [negb]. apply (S2 true eq_refl); [tauto|high]. }
+    discriminate.
+Qed.
+
+Lemma byte_is c n : (byte_of c =? n)%N = true -> c = ascii_of_N n.
+Proof. intros H. apply N.eqb_eq in H. rewrite <- H. unfold byte_of. now rewrite ascii_N_embedding. Qed.
+
+(** U+2028 / U+2029 are written as \u2028 / \u2029 and lexed back to their three octets *)
+Lemma line_sep_lex s d w X : line_sep s = Some d -> rune_width s = Some w ->
+  w = 3 /\ lex_str (["\"; "u"; "2"; "0"; "2"; d] ++ X) = prepend (firstn 3 s) (lex_str X).
+Proof.
+  unfold line_sep. destruct s as [|b0 [|b1 [|b2 rest]]]; try discriminate.
+  destruct ((byte_of b0 =? 226)%N) eqn:E0; [|discriminate].
+  destruct ((byte_of b1 =? 128)%N) eqn:E1; [|discriminate]. cbn [andb].
+  apply byte_is in E0, E1. subst b0 b1.
+  destruct ((byte_of b2 =? 168)%N) eqn:E2.
+  - apply byte_is in E2. subst b2. intros H; injection H as <-. intros Hw. vm_compute in Hw.
+    injection Hw as <-. split; [reflexivity|]. simpl. reflexivity.
+  - destruct ((byte_of b2 =? 169)%N) eqn:E3; [|discriminate].
+    apply byte_is in E3. subst b2. intros H; injection H as <-. intros Hw. vm_compute in Hw.
+    injection Hw as <-. split; [reflexivity|]. simpl. reflexivity.
+Qed.
+
+Lemma forallb_impl_local {A} (f g : A -> bool) l :
+  (forall x, f x = true -> g x = true) -> forallb f l = true -> forallb g l = true.
+Proof. intros I. induction l as [|x l IH]; [reflexivity|]. simpl. rewrite !andb_true_iff. intros [H1 H2]. split; auto. Qed.
+
+(** the escaped form of a valid UTF-8 string is lexed back to the string *)
+Lemma esc_lex fuel : forall s X, length s <= fuel -> utf8_ok fuel s = true ->
+  lex_str (json_esc fuel s ++ X) = prepend s (lex_str X).
+Proof.
+  induction fuel as [|f IH]; intros s X L V.
+  - destruct s; [|simpl in L; lia]. simpl. destruct (lex_str X) as [[v r]|]; reflexivity.
+  - destruct s as [|c s'].
+    + simpl. destruct (lex_str X) as [[v r]|]; reflexivity.
+    + cbn [json_esc utf8_ok] in *. destruct ((byte_of c <? 128)%N) eqn:A.
+      * rewrite <- app_assoc, (esc_char _ _ A), IH; [|simpl in L; lia|exact V].
+        now rewrite prepend_app.
+      * destruct (rune_width (c :: s')) as [w|] eqn:W; [|discriminate].
+        destruct (rune_width_high _ _ W) as (Hh & W2 & Wl).
+        assert (Ls : length (skipn w (c :: s')) <= f) by (rewrite skipn_length; lia).
+        rewrite <- app_assoc.
+        destruct (line_sep (c :: s')) as [d|] eqn:Sp.
+        -- destruct (line_sep_lex _ _ _ (json_esc f (skipn w (c :: s')) ++ X) Sp W) as [-> E].
+           rewrite E, (IH _ _ Ls V), prepend_app, firstn_skipn. reflexivity.
+        -- rewrite lex_plain.
+           ++ rewrite (IH _ _ Ls V), prepend_app, firstn_skipn. reflexivity.
+           ++ revert Hh. apply forallb_impl_local. intros x Hx. now apply high_plain.
+Qed.
+
+(** raw text between two quotes that the lexer reads as [v] *)
+Definition encodes (rv v : str) : Prop := forall r, lex_str (rv ++ QUOTE :: r) = Some (v, r).
+
+Lemma encodes_clean v : json_clean v = true -> encodes v v.
+Proof. intros H r. now apply lex_clean. Qed.
+
+Lemma encodes_escape v : utf8_valid v = true -> encodes (json_escape v) v.
+Proof.
+  intros H r. unfold json_escape. rewrite (esc_lex _ _ _ (le_n _) H).
+  cbn [lex_str]. rewrite Ascii.eqb_refl. simpl. now rewrite app_nil_r.
+Qed.
+
+Lemma members_last f rk k rv v : encodes rk k -> encodes rv v ->
+  members (S f) (QUOTE :: rk ++ QUOTE :: ":" :: QUOTE :: rv ++ QUOTE :: ["}"]) = Some [(k, v)].
+Proof.
+  intros Hk Hv. cbn [members]. rewrite Ascii.eqb_refl, Hk.
+  cbn -[lex_str]. rewrite Hv. reflexivity.
+Qed.
+
+Lemma members_more f rk k rv v rest : encodes rk k -> encodes rv v ->
+  members (S f) (QUOTE :: rk ++ QUOTE :: ":" :: QUOTE :: rv ++ QUOTE :: "," :: QUOTE :: rest) =
   match members f (QUOTE :: rest) with Some l => Some ((k, v) :: l) | None => None end.
 Proof.
-  intros Hk Hv. cbn [members]. rewrite Ascii.eqb_refl, (lex_clean _ _ Hk).
-  cbn -[lex_str members]. rewrite (lex_clean _ _ Hv). cbn -[members]. reflexivity.
+  intros Hk Hv. cbn [members]. rewrite Ascii.eqb_refl, Hk.
+  cbn -[lex_str members]. rewrite Hv. cbn -[members]. reflexivity.
 Qed.
 
 Lemma build_body_shape e p :
   build_body e p =
-  "{" :: QUOTE :: K_EMAIL ++ QUOTE :: ":" :: QUOTE :: e ++ QUOTE :: "," :: QUOTE ::
-         K_PASSWORD ++ QUOTE :: ":" :: QUOTE :: p ++ QUOTE :: ["}"].
-Proof.
-  unfold build_body, K_EMAIL, K_PASSWORD, S_. cbn [list_ascii_of_string app].
-  reflexivity.
-Qed.
+  "{" :: QUOTE :: K_EMAIL ++ QUOTE :: ":" :: QUOTE :: json_escape e ++ QUOTE :: "," :: QUOTE ::
+         K_PASSWORD ++ QUOTE :: ":" :: QUOTE :: json_escape p ++ QUOTE :: ["}"].
+Proof. reflexivity. Qed.
 
-(** (a), positive direction, for ALL strings free of quote, backslash and
-    control octets *)
-Theorem body_exact_clean e p :
-  json_clean e = true -> json_clean p = true -> body_exact (build_body e p) e p.
+(** (a) for ALL valid-UTF-8 addresses and passwords (every ASCII string, quotes,
+    backslashes and control octets included) *)
+Theorem body_exact_valid e p :
+  utf8_valid e = true -> utf8_valid p = true -> body_exact (build_body e p) e p.
 Proof.
   intros He Hp. unfold body_exact. rewrite build_body_shape.
-  unfold json_fields. cbn -[members K_EMAIL K_PASSWORD app].
-  cbn [length]. 
-  assert (Hk1 : json_clean K_EMAIL = true) by reflexivity.
-  assert (Hk2 : json_clean K_PASSWORD = true) by reflexivity.
+  unfold json_fields. cbn -[members K_EMAIL K_PASSWORD app json_escape].
+  cbn [length].
+  assert (Hk1 : encodes K_EMAIL K_EMAIL) by (apply encodes_clean; reflexivity).
+  assert (Hk2 : encodes K_PASSWORD K_PASSWORD) by (apply encodes_clean; reflexivity).
   match goal with |- members (S ?n) _ = _ => destruct n eqn:E end.
   - exfalso. cbn in E. rewrite !app_length in E. cbn in E. lia.
-  - rewrite (members_more _ K_EMAIL e _ Hk1 He).
-    rewrite (members_last _ K_PASSWORD p Hk2 Hp). reflexivity.
+  - rewrite (members_more _ _ _ _ _ _ Hk1 (encodes_escape _ He)).
+    rewrite (members_last _ _ _ _ _ Hk2 (encodes_escape _ Hp)). reflexivity.
 Qed.
+
+(** every ASCII string is valid UTF-8 *)
+Lemma ascii_utf8_ok fuel s : length s <= fuel -> all_ascii s = true -> utf8_ok fuel s = true.
+Proof.
+  revert s; induction fuel as [|f IH]; intros s L A.
+  - destruct s; [reflexivity|simpl in L; lia].
+  - destruct s as [|c s']; [reflexivity|]. simpl in A. apply andb_true_iff in A as [Ac As].
+    cbn [utf8_ok]. rewrite Ac. apply IH; [simpl in L; lia|exact As].
+Qed.
+
+Lemma ascii_utf8_valid s : all_ascii s = true -> utf8_valid s = true.
+Proof. intros A. apply ascii_utf8_ok; [lia|exact A]. Qed.
